@@ -29,7 +29,7 @@ pub fn all_profiles() -> Vec<Profile> {
         Profile::ebnf(),
         Profile { pratt: true, nodeops: true, parts: true, skips: true, ..Profile::base("pratt-nodeops") },
         Profile { choice: true, nodeops: true, asserts: true, skips: true, ..Profile::base("choice-nodeops") },
-        Profile { preds: true, pred_t: true, actions: true, returns: true, skips: true, parts: true, nodeops: true, ..Profile::base("preds-actions") },
+        Profile { preds: true, pred_t: true, actions: true, returns: true, leading_return: true, skips: true, parts: true, nodeops: true, ..Profile::base("preds-actions") },
         Profile { max_rules: 7, ..Profile::full() },
         Profile { crossing: true, nodeops: true, choice: true, skips: true, parts: true, ..Profile::base("crossing-creations") },
         Profile { choice: true, choice_weight: 10, skips: true, max_rules: 4, depth: 2, max_tokens: 3, shuffle_decls: true, ..Profile::base("choice-dense") },
@@ -247,6 +247,10 @@ impl LabProp for P03 {
             Status::TreePanic(_) => {
                 ev.exclude("tree unreadable (C01/C02 matter)");
                 Ok(())
+            }
+            Status::Fuel if !leading_returns(g).is_empty() => {
+                // one listed finding: a `&` before the first token of a rule, called from a repetition
+                Err(("leading-return-spin".into(), format!("parse does not return (fuel exhausted after {} loop iterations) [grammar has a leading return operator: {}]", rep.ticks, leading_returns(g)[0])))
             }
             st => Err(crossing_sig(g, status_sig(st), format!("parse did not return normally: {st:?} (ticks {}, depth {})", rep.ticks, rep.depth))),
         }
